@@ -5,7 +5,7 @@ import random
 from .. import astx, modgen, probe
 from ..core import REPO
 
-N_FILES = {"quick": 8, "thorough": 10000}
+N_FILES = {"quick": 24, "thorough": 10000}
 TIME_BUDGET = {"quick": 60, "thorough": 270}
 META = {
     "rule": "generated modules (real files) with 8-12 single-return helpers (def with/without docstring, name = lambda ..., nested in a "
